@@ -10,7 +10,9 @@
  *            status is absent or 0 and its request id equals the id of the request; then the chain of the reply (and nothing else)
  *            is buffered in tempData for the comparison rules and a stale buffered chain is gone.
  *   otherwise NA: with KSI_OK and result.status = the failure for service / network failures, with the error status itself for
- *            out-of-memory / invalid-argument / buffer-overflow / unknown (isFatalError), and NO chain stays buffered.
+ *            out-of-memory / invalid-argument / buffer-overflow / unknown, and NO chain stays buffered.  (The property allows either form;
+ *            WHICH statuses are handed back as error status is the library's own split - the tutorial's "internal errors such as invalid
+ *            arguments, out of memory" - and is asserted as such.)
  * Shape: calendar chain present / aggregation-time element present, reply present / with status / with chain (1 link), file of
  * C04_NPUB records.  Symbolic: every status, extender status code, both request ids, all times. */
 #include "verif.h"
